@@ -1,6 +1,7 @@
 (* C16: restriction mode after a liquidation.  Statements only. *)
 From MP.Model Require Import Prelude U128 SInt Feed Vamm VammOps Token World Engine Runtime.
-From MP.Proofs Require Import Tactics EngineGuards MoreFacts RestrictFacts Scenario.
+From MP.Proofs Require Import Tactics EngineGuards MoreFacts RestrictFacts.
+From MP.Model Require Import Scenario.
 
 Theorem C16_guard_blocks : forall w v t,
   vm_lrb (read_vmap (w_eng w) v) = height (w_env w) ->
